@@ -74,6 +74,12 @@ fn run_parse_error(initial: &str, raw: &[u8], s: usize, o: usize) {
     assert!(imp.error_span.end >= imp.error_span.start, "C06: error span is inverted");
     assert!(imp.error_span.end <= rest_len, "C06: error span reaches beyond the end of the text");
     assert!(imp.input.len() == rest_len, "C14: diagnostic text is not the text from the entry start");
+    // the renderer slices the diagnostic text at both ends of the span: a span end inside a multi-byte
+    // character makes Display panic ("byte index is not a char boundary")
+    assert!(
+        imp.input.is_char_boundary(imp.error_span.start) && imp.input.is_char_boundary(imp.error_span.end),
+        "C06: error span ends inside a multi-byte character (rendering the diagnostic would panic)"
+    );
     assert!(
         imp.line_start == 1 + count_nl(raw, s),
         "C14: first reported line is not the line of the entry start in the original file"
@@ -123,8 +129,6 @@ pub fn c06_parse_error_multibyte() {
     vk::assume(initial.is_char_boundary(s) && initial.is_char_boundary(s + o));
     vk::note(&|| format!("text={:?} entry_start={} error_offset={}", initial, s, o));
     run_parse_error(initial, &raw, s, o);
-    // additionally: the span ends on a character boundary of the diagnostic text
-    // (annotate-snippets slices the text at the span)
 }
 
 #[cfg(all(test, not(kani)))]
